@@ -18,18 +18,28 @@ def run(patch, ids, keep=False, tier="quick"):
             return {i: ("error", "patch does not apply: " + r.stdout[-200:]) for i in ids}
         ev = os.path.join(d, "_evidence")
         env = dict(os.environ, DECAF_REPO=d, VERIF_EVIDENCE_DIR=ev, CARGO_NET_OFFLINE="true")
-        for i in ids:
-            r = subprocess.run([os.path.join(VERIF, "check"), i, "--tier", tier], cwd=VERIF, env=env, stdout=subprocess.PIPE, stderr=subprocess.STDOUT, text=True)
+        def one(i):
+            r = subprocess.run([os.path.join(VERIF, "check"), i, "--tier", tier], cwd=VERIF, env=dict(env, VERIF_EVIDENCE_DIR=os.path.join(ev, i)),
+                               stdout=subprocess.PIPE, stderr=subprocess.STDOUT, text=True)
             viol = [l for l in r.stdout.splitlines() if l.startswith("VIOLATION") or l.startswith("  rule-instance")]
             if "FATAL" in r.stdout:
-                res[i] = ("error", r.stdout[-300:])
-            elif r.returncode == 1 and viol:
+                return i, ("error", r.stdout[-300:])
+            if r.returncode == 1 and viol:
                 inst = [l.split("rule-instance:")[1].strip() for l in viol if "rule-instance" in l]
-                res[i] = ("caught", inst[:4])
-            elif r.returncode == 0:
-                res[i] = ("silent", [])
-            else:
-                res[i] = ("error", r.stdout[-300:])
+                return i, ("caught", inst[:4])
+            if r.returncode == 0:
+                return i, ("silent", [])
+            return i, ("error", r.stdout[-300:])
+        if len(ids) > 2:
+            # extract the facts of all three configurations once (content-addressed cache), then run the checks concurrently
+            subprocess.run(["python3", "-m", "rules.facts", "A", "M", "R"], cwd=VERIF, env=env, stdout=subprocess.DEVNULL, stderr=subprocess.DEVNULL)
+            from concurrent.futures import ThreadPoolExecutor
+            with ThreadPoolExecutor(max_workers=int(os.environ.get("SCRATCH_JOBS", "8"))) as ex:
+                for i, v in ex.map(one, ids):
+                    res[i] = v
+        else:
+            for i in ids:
+                res[i] = one(i)[1]
     finally:
         if not keep:
             shutil.rmtree(d, ignore_errors=True)
